@@ -273,6 +273,23 @@ CLAIMS = {
         "Trusted: Coq kernel; extraction + driver; harness comparison. Axioms: none.",
         "6 (C01)",
     ),
+    "C13": (
+        "Coq proofs over all modules / paths / replacements of a transcription of annotate_ancestry locations + RewriteAtQuery "
+        "(shape and alignment preserved, exactly one parameter replaced in place, defaults unchanged under a stated side "
+        "condition, refutation otherwise), tied by node-by-node comparison of the output file's AST",
+        "C13_shape_preserved: the rewritten module has the same definitions and statements in the same order, every function keeps "
+        "its numbers of positional / keyword-only parameters and defaults, non-attribute statements are untouched; C13_one_parameter: "
+        "inside the function hit exactly one parameter is replaced in place; C13_alignment; C13_defaults_unchanged_partial: every "
+        "default is unchanged unless the replacement is a class attribute with a value whose name is also a positional parameter; "
+        "C13_defaults_refuted: in that case the faithful model overwrites ANOTHER parameter's default (witness replayed on the "
+        "implementation every run: known finding). Each run calls sync_properties on generated module pairs x valid path pairs x wrap "
+        "x --input-eval, converts the written file's AST to model nodes and requires equality with the model's rewrite (0 "
+        "disagreements), and evaluates the property itself (everything outside the target identical, target carries the input's name "
+        "and annotation / the Literal, input file untouched, input lookup equals the generator's ground truth). The input-side "
+        "find_in_ast lookup is not modelled: partial.",
+        "Trusted: Coq kernel; extraction + driver; the Python ast -> model adapter. Axioms: none.",
+        "6 (C13)",
+    ),
 }
 
 NOT_YET = "check not built yet in this development (DESIGN.md section 8 gives the order of work)"
